@@ -21,8 +21,9 @@ CLASSES = {
     'detect_measures': {'quick': 1600, 'thorough': 48000},
     'solver': {'quick': 120, 'thorough': 2800},
     'mask_update': {'quick': 1500, 'thorough': 30000},
+    'impose_measure': {'quick': 1500, 'thorough': 30000},
 }
-MIN_EVENTS = {'quick': {'assert:detect': 4000, 'assert:solver': 200, 'collapses_applied': 40, 'assert:mask': 2500}}
+MIN_EVENTS = {'quick': {'assert:detect': 4000, 'assert:solver': 200, 'collapses_applied': 40, 'assert:mask': 2500, 'measure_constraints_applied': 1000}}
 CASE_TIMEOUT = 300
 BAND = 1e-12
 
@@ -388,8 +389,80 @@ def run_mask_update(rng, obs):
     obs.notes = {'old': len(old_items), 'new': len(new_items)}
 
 
+def run_impose_measure(rng, obs):
+    """what a solver installs when weight / position collapses of a product measure are applied (constraints.impose_measure, and its
+    one-sided forms impose_weight / impose_position): on the output every collapsed weight is exactly 0 and every collapsed pair of
+    positions is exactly equal - also when the same measure has both kinds of collapse and they overlap - while each measure keeps
+    its total weight and weighted mean"""
+    import mystic.constraints as mc
+    nm = rng.randint(1, 3)
+    npts = tuple(rng.randint(2, 4) for _ in range(nm))
+    tracking, noweight = {}, {}
+    for m in range(nm):
+        n = npts[m]
+        if rng.random() < 0.7:
+            pairs = set()
+            for _ in range(rng.randint(1, 2)):
+                i, j = sorted(rng.sample(range(n), 2)); pairs.add((i, j))
+            tracking[m] = pairs
+        if rng.random() < 0.7:
+            k = rng.randint(1, n - 1)
+            cand = list(range(n))
+            if m in tracking and rng.random() < 0.6:      # overlap: the dead weight is a member (often the leader) of a tracked pair
+                first = rng.choice([p[0] for p in tracking[m]] + [p[1] for p in tracking[m]])
+                cand.remove(first); idx = {first} | set(rng.sample(cand, k - 1))
+            else: idx = set(rng.sample(cand, k))
+            noweight[m] = idx
+    if not tracking and not noweight: noweight[0] = {0}
+    params = []
+    for m in range(nm):
+        w = [rng.choice([0.0, 0.1, 0.25, 0.5, 1.0]) for _ in range(npts[m])]
+        if not any(w): w[rng.randrange(npts[m])] = 1.0
+        tot = sum(w); w = [v / tot for v in w]
+        params += w + [round(rng.uniform(-5, 5), 2) for _ in range(npts[m])]
+    which = 'measure' if (tracking and noweight) else rng.choice(['measure', 'one_sided'])
+    ident = lambda x: x
+    if which == 'measure': f = mc.impose_measure(npts, dict(tracking), dict(noweight))(ident)
+    elif tracking: f = mc.impose_position(npts, dict(tracking))(ident); noweight = {}
+    else: f = mc.impose_weight(npts, dict(noweight))(ident)
+    obs.desc = {'npts': list(npts), 'tracking': {str(k): sorted(v) for k, v in tracking.items()}, 'noweight': {str(k): sorted(v) for k, v in noweight.items()},
+                'params': params, 'form': which}
+    y = [float(v) for v in f(list(params))]
+    ck = lambda ok, what, **kw: obs.check(ok, 'measure:' + what, npts=list(npts), tracking=obs.desc['tracking'], noweight=obs.desc['noweight'], x=params, y=y, form=which, **kw)
+    ofs = 0
+    for m in range(nm):
+        n = npts[m]
+        w0, p0 = params[ofs:ofs + n], params[ofs + n:ofs + 2 * n]
+        w1, p1 = y[ofs:ofs + n], y[ofs + n:ofs + 2 * n]
+        ofs += 2 * n
+        dead = sorted(noweight.get(m, ()))
+        ck(all(w1[i] == 0.0 for i in dead), 'every collapsed weight is exactly zero on the output', measure=m, weights=w1, collapsed=dead)
+        # connected groups of tracked positions
+        parent = list(range(n))
+        def find(i):
+            while parent[i] != i: i = parent[i]
+            return i
+        for (i, j) in tracking.get(m, ()): parent[find(j)] = find(i)
+        groups = {}
+        for i in range(n): groups.setdefault(find(i), []).append(i)
+        for g in groups.values():
+            if len(g) > 1:
+                ck(len(set(p1[i] for i in g)) == 1, 'every collapsed pair of positions is exactly equal on the output', measure=m, positions=p1, group=g)
+        t0, t1 = sum(w0), sum(w1)
+        ck(abs(t1 - t0) <= 1e-12 * max(1.0, abs(t0)), 'each measure keeps its total weight', measure=m, before=t0, after=t1)
+        alive = [i for i in range(n) if i not in dead]
+        if t1 > 0 and any(w0[i] > 0 for i in alive):
+            m0 = sum(a * b for a, b in zip(w0, p0)) / t0; m1 = sum(a * b for a, b in zip(w1, p1)) / t1
+            ck(abs(m1 - m0) <= 1e-9 * max(1.0, abs(m0), max(abs(v) for v in p0)), 'each measure keeps its weighted mean', measure=m, before=m0, after=m1)
+    # (idempotence is not part of the property and does not hold: weight that has to be re-created for a measure whose whole mass was dead
+    # is spread over the survivors, then gathered by the next application)
+    obs.event('measure_constraints_applied')
+    obs.nontrivial = bool(tracking) and bool(noweight) and any(set(i for p in tracking[m] for i in p) & noweight[m] for m in tracking if m in noweight)
+    obs.notes = {'y': y}
+
+
 def run_case(cls, idx, rng, obs):
     import warnings
     warnings.simplefilter('ignore')
     np.seterr(all='ignore')
-    return {'detect_params': run_detect_params, 'detect_measures': run_detect_measures, 'solver': run_solver, 'mask_update': run_mask_update}[cls](rng, obs)
+    return {'detect_params': run_detect_params, 'detect_measures': run_detect_measures, 'solver': run_solver, 'mask_update': run_mask_update, 'impose_measure': run_impose_measure}[cls](rng, obs)
